@@ -1468,6 +1468,40 @@ def _c_defaults():
              '[' + ', '.join(f'("{k[2:]}", {want[k].lower()})' for k in ('--overwrite', '--param-image', '--build-ovw', '--force-match')) + ']', 'flag defaults')]
 
 
+def _s_window():
+    """stats.py _get_data_window / stats(): the pre-pass takes the DATASET mask of each tile of band 1 (valid where any band is),
+    its bounding window moved to the tile's corner, the union over the tiles; stats() reads the tiles of every band meeting it"""
+    from homonim.stats import ParamStats
+    fn = fn_body(src_of(ParamStats._get_data_window))
+    inner = fn_body(fn, 'get_block_data_window')
+    if U(the_assign(inner, 'mask')) != 'self._param_im.dataset_mask(window=block_win)':
+        raise TranslationError(f"_get_data_window: mask = `{U(the_assign(inner, 'mask'))}` (the dataset mask is valid where ANY band is)")
+    if U(the_assign(inner, '_block_data_win')) != 'get_data_window(mask, nodata=0)':
+        raise TranslationError('_get_data_window: get_data_window(mask, nodata=0)')
+    st = [U(x) for x in _stmts(inner)]
+    if 'if _block_data_win.width == 0 or _block_data_win.height == 0:\n    return None' not in st or st[-1] != (
+            'return Window(block_win.col_off + _block_data_win.col_off, block_win.row_off + _block_data_win.row_off, '
+            '_block_data_win.width, _block_data_win.height)'):
+        raise TranslationError(f'_get_data_window: empty tile / offset {st[-2:]}')
+    subs = [U(n) for n in ast.walk(fn) if isinstance(n, ast.ListComp)]
+    if subs != ['[executor.submit(get_block_data_window, block_win) for block_ij, block_win in self._param_im.block_windows(1)]']:
+        raise TranslationError(f'_get_data_window: tiles visited {subs}')
+    if U(the_assign(fn, 'im_data_win')) != 'union(im_data_win, block_data_win) if im_data_win else block_data_win':
+        raise TranslationError('_get_data_window: union')
+    sf = fn_body(src_of(ParamStats.stats))
+    if U(the_assign(sf, 'data_win')) != 'self._get_data_window(threads=threads)':
+        raise TranslationError('stats: data_win')
+    comp = the_assign(sf, 'stats_futures')
+    gens = [(U(g.target), U(g.iter), [U(i) for i in g.ifs]) for g in comp.generators] if isinstance(comp, ast.ListComp) else None
+    if gens != [('band_i', 'range(self._param_im.count)', []),
+                ('(block_ij, block_win)', 'self._param_im.block_windows(band_i + 1)', ['intersect(data_win, block_win)'])] or \
+            U(comp.elt) != 'executor.submit(get_block_sums, band_i, block_win)':
+        raise TranslationError(f'stats: tiles read {gens}')
+    return [('statsWindow_steps', '', 'List WindowStep',
+             '[.datasetMaskOfTile, .boundingWindowOfMask, .emptyTileIsNone, .offsetByTileCorner, .unionInCompletionOrder, '
+             '.readTilesOfEveryBandMeetingWindow]', '_get_data_window and the tile filter of stats()')]
+
+
 def _f_tags():
     """fuse.py / stats.py: which FUSE_* tags process() writes into both outputs (the three fixed ones of _set_metadata plus one per
     configuration key handed to _out_files), which of them ParamStats reads, and that the threshold read back is made a number"""
@@ -1535,7 +1569,7 @@ def _f_tags():
 SECTIONS = [_k_fit_gain, _k_fit_gain_offset, _k_r2, _k_blk, _s_cmp, _s_cmp_mean, _s_stats, _g_blocks, _g_resolve, _g_auto,
             _g_overlap, _g_expand, _g_round, _g_covers, _g_pindex, _s_cmp_block, _m_cover, _a_bounded, _p_r2band, _f_prog, _f_outfiles, _c_invoke, _f_process, _k_resampling, _a_convert, _a_write, _a_read,
             _g_orient, _m_naneq, _f_accumulate, _c_loops, _f_profiles, _c_nodata, _b_match, _f_locks,
-            _u_kernel, _u_threads, _u_param_image, _u_names, _u_nonalpha, _b_info, _c_defaults, _f_tags]
+            _u_kernel, _u_threads, _u_param_image, _u_names, _u_nonalpha, _b_info, _c_defaults, _f_tags, _s_window]
 # definition-name prefixes each extractor is responsible for (used to attribute a failed extraction to properties)
 PROVIDES = {'_k_fit_gain': ('fitGain_',), '_k_fit_gain_offset': ('fitGainOffset_',), '_k_r2': ('r2_',),
             '_k_blk': ('blk_', 'blockNorm_', 'applyParams'), '_s_cmp': ('cmp_',), '_s_cmp_mean': ('cmp_meanRow',),
@@ -1546,12 +1580,12 @@ PROVIDES = {'_k_fit_gain': ('fitGain_',), '_k_fit_gain_offset': ('fitGainOffset_
             '_a_read': ('read_',), '_g_orient': ('orient_',), '_m_naneq': ('mask_',), '_f_accumulate': ('accumulate_',),
             '_c_loops': ('cli_fuseLoop', 'cli_compareLoop'), '_f_profiles': ('profile_',), '_c_nodata': ('cli_nodata',), '_b_match': ('match_',), '_f_locks': ('locks_',),
             '_u_kernel': ('kernel_',), '_u_threads': ('threads_',), '_u_param_image': ('paramImage_',), '_u_names': ('names_',),
-            '_u_nonalpha': ('bands_',), '_b_info': ('bandInfo_',), '_c_defaults': ('cli_defaults', 'cli_flagDefaults'), '_f_tags': ('tags_',)}
+            '_u_nonalpha': ('bands_',), '_b_info': ('bandInfo_',), '_c_defaults': ('cli_defaults', 'cli_flagDefaults'), '_f_tags': ('tags_',), '_s_window': ('statsWindow_',)}
 # which generated definitions (by name prefix) bear on which property's check
 SERVES = {
     'C01': ('fitGain', 'r2_', 'blk_', 'blockNorm_', 'kernel_'), 'C02': ('fitGain', 'r2_', 'blk_', 'blockNorm_', 'applyParams', 'resamplingIsDown'),
     'C07': ('fitGain', 'r2_', 'blk_', 'blockNorm_', 'applyParams', 'mask_'), 'C14': ('applyParams', 'paramIndex', 'fitGain', 'r2_', 'profile_metaTags', 'paramImage_', 'tags_'),
-    'C04': ('prog', 'fanOut', 'accumulate_', 'locks_', 'threads_'), 'C09': ('prog', 'outFilesEvents', 'fanOut'), 'C10': ('outFilesEvents', 'profile_', 'cli_fuseLoop', 'names_'), 'C11': ('cmp_', 'cmpPx_', 'resamplingIsDown', 'accumulate_compare', 'mask_'), 'C12': ('stats_', 'accumulate_stats', 'paramImage_', 'tags_'), 'C17': ('cover_',), 'C20': ('bounded_', 'writeSteps', 'read_', 'convert_', 'mask_'), 'C13': ('convert_', 'writeSteps', 'profile_'), 'C08': ('read_', 'mask_', 'bands_'),
+    'C04': ('prog', 'fanOut', 'accumulate_', 'locks_', 'threads_'), 'C09': ('prog', 'outFilesEvents', 'fanOut'), 'C10': ('outFilesEvents', 'profile_', 'cli_fuseLoop', 'names_'), 'C11': ('cmp_', 'cmpPx_', 'resamplingIsDown', 'accumulate_compare', 'mask_'), 'C12': ('stats_', 'accumulate_stats', 'paramImage_', 'tags_', 'statsWindow_'), 'C17': ('cover_',), 'C20': ('bounded_', 'writeSteps', 'read_', 'convert_', 'mask_'), 'C13': ('convert_', 'writeSteps', 'profile_'), 'C08': ('read_', 'mask_', 'bands_'),
     'C03': ('writeSteps',), 'C05': ('overlapForKernel', 'blocks_', 'resamplingIsDown', 'fitGain', 'r2_', 'kernel_'),
     'C06': ('blocks_', 'expandWindow_', 'roundBounds_', 'autoBlock_', 'orient_'), 'C16': ('covers_axis', 'orient_'), 'C18': ('resolveAutoIsRef', 'orient_', 'cli_fuseLoop', 'tags_'), 'C19': ('cli_', 'names_', 'threads_', 'kernel_'), 'C15': ('match_', 'bands_', 'bandInfo_'),
 }
@@ -1569,7 +1603,7 @@ TIE = {
     'C07': [('SrcTieKernel', 'src_C01_'), ('E2ELine', 'whole_image_scale'), ('E2EWide', 'whole_image_scale_wide'), ('SrcTieGeom', 'src_C08_nan_equals'), ('SrcTieGeom', 'src_C08_mask_')],
     'C14': [('SrcTieCli', 'src_C12_'), ('SrcTieKernel', 'src_C14_'), ('SrcTieGeom', 'src_C14_'), ('SrcTieKernel', 'src_C01_'), ('SrcTieSched', 'src_C13_profiles'), ('E2EParam', 'param_valid_'), ('E2EParam', 'src_grid_corrected_is_param_applied')],
     'C11': [('SrcTieStats', 'src_C11_'), ('E2ECompare', 'compare_'), ('SrcTieKernel', 'src_C02_resampling'), ('SrcTieSched', 'src_C04_accumulate'), ('SrcTieGeom', 'src_C08_nan_equals')],
-    'C12': [('SrcTieCli', 'src_C12_'), ('SrcTieStats', 'src_C12_'), ('SrcTieSched', 'src_C04_accumulate')], 'C05': [('SrcTieCli', 'src_C01_kernel'), ('SrcTieCli', 'src_C01_accepted'), ('SrcTieGeom', 'src_C05_'), ('SrcTieGeom', 'src_C06_block'), ('SrcTieKernel', 'src_C01_'), ('E2E', 'block_transparent'), ('E2E', 'partitions_agree'),
+    'C12': [('SrcTieCli', 'src_C12_'), ('StatsWindow', 'no_valid_pixel_skipped'), ('StatsWindow', 'dataWindow_contains'), ('StatsWindow', 'first_band_window_skips_counterexample'), ('SrcTieStats', 'src_C12_'), ('SrcTieSched', 'src_C04_accumulate')], 'C05': [('SrcTieCli', 'src_C01_kernel'), ('SrcTieCli', 'src_C01_accepted'), ('SrcTieGeom', 'src_C05_'), ('SrcTieGeom', 'src_C06_block'), ('SrcTieKernel', 'src_C01_'), ('E2E', 'block_transparent'), ('E2E', 'partitions_agree'),
             ('E2ESrc', 'block_transparent_src_grid'), ('E2ESrc', 'partitions_agree_src_grid'), ('E2ESrc', 'correctedSrcGrid_eq_on'),
             ('E2EWide', 'block_transparent_wide'), ('E2EWide', 'block_mask_eq_whole_wide'), ('E2EParam', 'param_image_')],
     'C06': [('SrcTieGeom', 'src_C06_'), ('SrcTieGeom', 'src_C16_north_up'), ('SrcTieGeom', 'src_C16_same_orientation')], 'C16': [('SrcTieGeom', 'src_C16_')],
@@ -1586,7 +1620,7 @@ def generate():
     lines = ['/-', '  GENERATED by harness/py2lean.py from the source text of the homonim package - do not edit.',
              '  Each definition is the closed form of what the named statement of the code evaluates (see py2lean.py).', '-/',
              'import Homonim.Model.Sched', 'import Homonim.Model.FS', 'import Homonim.Model.WindowIO', 'import Homonim.Model.Cli',
-             'import Homonim.Model.Bands', 'namespace Homonim.Src', 'open Homonim', '']
+             'import Homonim.Model.Bands', 'import Homonim.Model.StatsWindow', 'namespace Homonim.Src', 'open Homonim', '']
     errors = {}
     for fn in SECTIONS:
         try:
